@@ -45,6 +45,9 @@ def _ops():
         "modf_foo": dict(kind="modify", py=f"r.modify('{SYM}', 3.0)", model=f"c12.modf\t{SYM}\t{f(3.0)}", spec=("modf", SYM, 3.0)),
         "modq_foo": dict(kind="modify", py=f"r.modify('{SYM}', unyt_quantity(7.0, 'km/s', registry=r))",
                          model=f"c12.modqu\t{SYM}\t{f(7.0)}\tkm/s", spec=("modq", SYM, 7.0, "km/s")),
+        "modq2_foo": dict(kind="modify", py=f"r.modify('{SYM}', unyt_quantity(4.0, 'km', registry=r))",
+                          model=f"c12.modqu\t{SYM}\t{f(4.0)}\tkm", spec=("modq", SYM, 4.0, "km")),
+        "modi_foo": dict(kind="modify", py=f"r.modify('{SYM}', 6)", model=f"c12.modf\t{SYM}\t{f(6.0)}", spec=("modf", SYM, 6.0)),
         "rm_foo": dict(kind="remove", py=f"r.remove('{SYM}')", model=f"c12.rm\t{SYM}", spec=("rm", SYM)),
         "def_zot": dict(kind="add", py=f"define_unit('{SYM2}', (3.0, 'k{SYM}'), prefixable=True, registry=r)",
                         model=f"c12.defunit\t{SYM2}\t{f(3.0)}\tk{SYM}\t1", spec=("def", SYM2, 3.0, "k" + SYM, True)),
@@ -68,14 +71,14 @@ PROBES = [
     ("has", SYM), ("has", "k" + SYM), ("get", "k" + SYM), ("get", SYM2),
 ]
 
-FAMILY = {"add": "add", "addbad": "add", "modf": "modify", "modq": "modify-quantity", "rm": "remove", "def": "define_unit",
+FAMILY = {"add": "add", "addbad": "add", "modf": "modify", "modi": "modify", "modq": "modify-quantity", "modq2": "modify-quantity", "rm": "remove", "def": "define_unit",
           "u": "look", "has": "look", "sysid": "look"}
 
 
 def family(name):
     return FAMILY[name.split("_")[0]]
 
-STRINGS = sorted({q for k, q in PROBES if k == "unit"} | {"km/s", SYM, "k" + SYM, SYM + "*s"})
+STRINGS = sorted({q for k, q in PROBES if k == "unit"} | {"km/s", "km", SYM, "k" + SYM, SYM + "*s"})
 
 
 def spelling(q):
@@ -279,6 +282,7 @@ def run_history(hist, want_state=True):
     trail = [cont.copy()]
     diverged = False
     memo_culprit = None
+    memo_culprit_idx = 0
 
     def note(u):
         if id(u) not in seen_obj:
@@ -304,7 +308,10 @@ def run_history(hist, want_state=True):
         # (classification only) did the id memo survive an edit that ran a registry method?
         fam = family(name)
         if fam in ("add", "modify", "modify-quantity", "remove") or (fam == "define_unit" and out[0] == "done"):
-            memo_culprit = fam if getattr(r, "_unit_system_id", None) is not None else None
+            memo_culprit = None
+            m = getattr(r, "_unit_system_id", None)
+            if m is not None and m != UnitRegistry(add_default_symbols=False, lut=dict(r.lut)).unit_system_id:
+                memo_culprit, memo_culprit_idx = fam, idx
         want = cont.apply(op["spec"])
         trail.append(cont.copy())
         if want is not None:
@@ -369,10 +376,16 @@ def run_history(hist, want_state=True):
                     reason = "covers-written-back-entries"
                 else:
                     reason = "table-differs"
+                if memo_culprit is not None:
+                    # the id reported right after the edit must be the id of the table as it is then
+                    py = (HEADER + history_src(hist[:memo_culprit_idx + 1])
+                          + "assert r.unit_system_id == UnitRegistry(add_default_symbols=False, lut=dict(r.lut)).unit_system_id\n")
+                else:
+                    py = HEADER + history_src(hist) + fresh_src(cont.user) + "assert r.unit_system_id == F.unit_system_id\n"
                 failures.append(dict(
                     key=f"C12|unit_system_id|{reason}",
                     what=f"r.unit_system_id after {hist} differs from the id of a fresh registry with the same contents ({reason})",
-                    py=HEADER + history_src(hist) + fresh_src(cont.user) + "assert r.unit_system_id == F.unit_system_id\n"))
+                    py=py))
             continue
         if not same_outcome(got, want):
             if kind == "unit":
@@ -757,7 +770,7 @@ def run(tier, seed):
     exh_len = 3 if tier == "quick" else 4
     hists = [list(h) for n in range(1, exh_len + 1) for h in itertools.product(ALPHABET, repeat=n)]
     n_exh = len(hists)
-    n_rand = 2500 if tier == "quick" else 40000
+    n_rand = 2500 if tier == "quick" else 30000
     for _ in range(n_rand):
         n = rng.randint(exh_len + 1, 12)
         # bias towards histories that begin by defining the symbol
@@ -804,7 +817,7 @@ def run(tier, seed):
     if os.environ.get("C12_DEBUG"):
         for d in chk.disagreements[:40]:
             print("DISAGREE", d[0], d[1][:600])
-    rule = ("every history over the 14-op alphabet on two symbols up to the stated length, plus random longer ones; distinct = distinct "
+    rule = ("every history over the 16-op alphabet on two symbols up to the stated length, plus random longer ones; distinct = distinct "
             "operation sequence; each is executed on a real custom UnitRegistry, on the Lean machine, and its probe set on a fresh registry "
             "built from the recorded contents")
     return chk.finish(rule)
